@@ -17,7 +17,7 @@ func vCRLFNorm(s string) string { // an RFC 4180 reader reports CRLF inside a qu
 // H_C14_csv_roundtrip: CSV and TSV exports parse back, with a standard CSV reader, to one record per chunk in order with the same id and text.
 //
 //symgo:harness prop=C14 kernel=K1-csv-tsv
-//symgo:desc 1..2 chunks; format CSV or TSV, header row on/off (enumerated); one cell (the text or the id of chunk 0, enumerated) holds 0..2 quick / 0..3 thorough symbolic bytes over {comma, tab, quote, CR, LF, NUL, 'a', 0xC3, 0xA9, ';'}, the other cells concrete adversarial strings; read back by the interpreted encoding/csv.Reader with the same delimiter (LazyQuotes off): record count, header = column list, id and text cells equal (CRLF->LF inside quoted fields allowed), and the chunk_index / page_start / page_end cells are the chunk's own metadata values (which differ from its position in the exported slice)
+//symgo:desc 1..2 chunks; format CSV (CSVExportConfig), TSV (TSVExportConfig) or TSV chosen by setting Format on DefaultExportConfig, header row on/off (enumerated); one cell (the text or the id of chunk 0, enumerated) holds 0..2 quick / 0..3 thorough symbolic bytes over {comma, tab, quote, CR, LF, NUL, 'a', 0xC3, 0xA9, ';'}, the other cells concrete adversarial strings; read back by the interpreted encoding/csv.Reader with the same delimiter (LazyQuotes off): record count, header = column list, id and text cells equal (CRLF->LF inside quoted fields allowed), and the chunk_index / page_start / page_end cells are the chunk's own metadata values (which differ from its position in the exported slice)
 func H_C14_csv_roundtrip() {
 	maxN := 2
 	if vTier() > 0 {
@@ -26,8 +26,14 @@ func H_C14_csv_roundtrip() {
 	n := vAnyIntIn(1, 2)
 	cfg := CSVExportConfig()
 	delim := ','
-	if vAnyIntIn(0, 1) == 1 {
+	switch vAnyIntIn(0, 2) {
+	case 1:
 		cfg = TSVExportConfig()
+		delim = '\t'
+	case 2:
+		// the TSV format chosen on the default configuration, as its Format field invites
+		cfg = DefaultExportConfig()
+		cfg.Format = ExportFormatTSV
 		delim = '\t'
 	}
 	cfg.IncludeHeader = vAnyIntIn(0, 1) == 1
